@@ -68,7 +68,7 @@ theorem outer_step (s s' : LSt) (mo mo' mi : Mon) (e : Ev) (hl : Link s mo mi)
     simp only [LSt.step, outerClone] at hs
     split at hs
     · rename_i hg
-      obtain ⟨ho, hp, hsrc, hnew, hn⟩ := hg
+      obtain ⟨hp, hsrc, hnew, hn⟩ := hg
       cases hs
       obtain ⟨⟨hlt, hnn⟩, rfl⟩ := (mon_clone _ _ _ _).mp hm
       have hnO := hl.nO
@@ -79,7 +79,7 @@ theorem outer_step (s s' : LSt) (mo mo' mi : Mon) (e : Ev) (hl : Link s mo mi)
         simp only at hr
         rw [upd_other _ _ _ _ (by omega)] at hr
         exact hl.rdy o i h hr
-      · intro o t h; simp only at h; rw [ho] at h; cases h
+      · intro o t h; simp at h
       · intro i h; simp at h
       · intro nw sr h
         simp only [Option.some.injEq, Prod.mk.injEq] at h
@@ -91,7 +91,7 @@ theorem outer_step (s s' : LSt) (mo mo' mi : Mon) (e : Ev) (hl : Link s mo mi)
     simp only [LSt.step, outerPoll] at hs
     split at hs
     · rename_i hg
-      obtain ⟨ho, hp⟩ := hg
+      have hp := hg
       split at hs
       · rename_i i hci
         split at hs
@@ -109,7 +109,7 @@ theorem outer_step (s s' : LSt) (mo mo' mi : Mon) (e : Ev) (hl : Link s mo mi)
               · exact hl.last i (hrdy hrr)
               · simp [hrr] at hr; exact hl.rdy o' i hci hr
             · rw [upd_other _ _ _ _ hoo] at hr; exact hl.rdy o' i' h hr
-          · intro o' t h; simp only at h; rw [ho] at h; cases h
+          · intro o' t h; simp at h
           · intro i' h; simp at h
           · intro nw sr h; simp only at h; rw [hp] at h; cases h
         · cases hs
@@ -119,7 +119,7 @@ theorem outer_step (s s' : LSt) (mo mo' mi : Mon) (e : Ev) (hl : Link s mo mi)
     simp only [LSt.step, outerCall] at hs
     split at hs
     · rename_i hg
-      obtain ⟨ho, hp, hsome⟩ := hg
+      obtain ⟨hp, hsome⟩ := hg
       cases hs
       obtain ⟨⟨hlt, hr⟩, rfl⟩ := (mon_call _ _ _ _).mp hm
       obtain ⟨i, hci⟩ := Option.isSome_iff_exists.mp hsome
@@ -298,7 +298,37 @@ theorem inner_clone (s s' : LSt) (mo mi : Mon) (src new : Nat) (hl : Link s mo m
             · intro o t h; simp only at h; rw [hop] at h; cases h
             · intro i h; simp at h
             · intro nw sr h; simp only at h; rw [hp] at h; cases h
-          · cases hc
+          · -- a spare clone of the held instance, right after a direct call on it
+            split at hc
+            · rename_i o tag hlc
+              split at hc
+              · rename_i hcs
+                cases hc
+                have hsl := hl.curLt o src hcs
+                refine ⟨_, (mon_clone _ _ _ _).mpr ⟨⟨hsl, hnewn⟩, rfl⟩, ?_⟩
+                refine ⟨by simp [hnI], hl.nO, hl.curLtO, ?_, ?_, hl.inj, ?_, ?_, ?_, ?_, ?_, ?_⟩
+                · intro o' i h; have := hl.curLt o' i h; simp only; omega
+                · intro i w h; simp only at h ⊢
+                  by_cases hi : i = new
+                  · omega
+                  · rw [upd_other _ _ _ _ hi] at h; have := hl.ownLt i w h; omega
+                · intro o' i h; simp only
+                  have := hl.curLt o' i h
+                  rw [upd_other _ _ _ _ (by omega)]; exact hl.disj o' i h
+                · intro o' i h hr; simp only
+                  have := hl.curLt o' i h
+                  rw [upd_other _ _ _ _ (by omega)]; exact hl.rdy o' i h hr
+                · intro i w h hw; simp only at h ⊢
+                  by_cases hi : i = new
+                  · subst hi; rw [upd_same] at h; cases h; cases hw
+                  · rw [upd_other _ _ _ _ hi] at h
+                    have := hl.ownLt i w h
+                    rw [upd_other _ _ _ _ (by omega)]; exact hl.armed i w h hw
+                · intro o' t h; simp only at h; rw [hop] at h; cases h
+                · intro i h; simp at h
+                · intro nw sr h; simp only at h; rw [hp] at h; cases h
+              · cases hc
+            · cases hc
   · cases hs
 
 theorem ready_mono (mi : Mon) (i j : Nat) (r : PollRes) (h : mi.ready j = true) :
@@ -528,24 +558,27 @@ def callTags : List Ev → List Nat
 structure TagInv (s : LSt) (seen : List Nat) : Prop where
   owned : ∀ i w, s.owned i = some w → w.tag ∈ seen
   opened : ∀ o t, s.opened = some (o, t) → t ∈ seen
+  last : ∀ o t, s.lastCall = some (o, t) → t ∈ seen
 
 theorem tag_step (s s' : LSt) (x : LIn) (seen : List Nat) (h : TagInv s seen) (hs : s.step x = some s') :
     (∀ e, x = .outer e → TagInv s' (callTags [e] ++ seen)) ∧
     (∀ e, x = .inner e → TagInv s' seen ∧ ∀ t ∈ callTags [e], t ∈ seen) := by
+  have nolast : ∀ (sn : List Nat) (o t : Nat), (none : Option (Nat × Nat)) = some (o, t) → t ∈ sn := by
+    intro _ _ _ hh; cases hh
   constructor
   · intro e hx; subst hx
     cases e with
     | clone src new =>
       simp only [LSt.step, outerClone] at hs
       split at hs
-      · cases hs; exact ⟨h.owned, h.opened⟩
+      · cases hs; exact ⟨h.owned, nolast _, nolast _⟩
       · cases hs
     | poll o r =>
       simp only [LSt.step, outerPoll] at hs
       split at hs
       · split at hs
         · split at hs
-          · cases hs; exact ⟨h.owned, h.opened⟩
+          · cases hs; exact ⟨h.owned, nolast _, nolast _⟩
           · cases hs
         · cases hs
       · cases hs
@@ -553,7 +586,7 @@ theorem tag_step (s s' : LSt) (x : LIn) (seen : List Nat) (h : TagInv s seen) (h
       simp only [LSt.step, outerCall] at hs
       split at hs
       · cases hs
-        refine ⟨fun i w hw => by simp [callTags]; exact Or.inr (h.owned i w hw), ?_⟩
+        refine ⟨fun i w hw => by simp [callTags]; exact Or.inr (h.owned i w hw), ?_, nolast _⟩
         intro o' t hh
         simp only [Option.some.injEq, Prod.mk.injEq] at hh
         obtain ⟨_, rfl⟩ := hh
@@ -573,13 +606,13 @@ theorem tag_step (s s' : LSt) (x : LIn) (seen : List Nat) (h : TagInv s seen) (h
           unfold innerCloneCore at hc
           split at hc
           · split at hc
-            · cases hc; exact ⟨h.owned, h.opened⟩
+            · cases hc; exact ⟨h.owned, h.opened, h.last⟩
             · cases hc
           · split at hc
             · rename_i o tag hop
               split at hc
               · cases hc
-                refine ⟨?_, by intro o' t hh; simp at hh⟩
+                refine ⟨?_, by intro o' t hh; simp at hh, h.last⟩
                 intro i w hw
                 simp only at hw
                 by_cases hi : i = src
@@ -589,13 +622,24 @@ theorem tag_step (s s' : LSt) (x : LIn) (seen : List Nat) (h : TagInv s seen) (h
             · split at hc
               · rename_i ow how
                 cases hc
-                refine ⟨?_, h.opened⟩
+                refine ⟨?_, h.opened, h.last⟩
                 intro i w hw
                 simp only at hw
                 by_cases hi : i = new
                 · subst hi; rw [upd_same] at hw; cases hw; exact h.owned src ow how
                 · rw [upd_other _ _ _ _ hi] at hw; exact h.owned i w hw
-              · cases hc
+              · split at hc
+                · rename_i o tag hlc
+                  split at hc
+                  · cases hc
+                    refine ⟨?_, h.opened, nolast _⟩
+                    intro i w hw
+                    simp only at hw
+                    by_cases hi : i = new
+                    · subst hi; rw [upd_same] at hw; cases hw; exact h.last o tag hlc
+                    · rw [upd_other _ _ _ _ hi] at hw; exact h.owned i w hw
+                  · cases hc
+                · cases hc
       · cases hs
     | poll i r =>
       simp only [LSt.step, innerPoll] at hs
@@ -603,7 +647,7 @@ theorem tag_step (s s' : LSt) (x : LIn) (seen : List Nat) (h : TagInv s seen) (h
       split at hs
       · rename_i ow how
         cases hs
-        refine ⟨?_, h.opened⟩
+        refine ⟨?_, h.opened, h.last⟩
         intro i' w hw
         simp only at hw
         split at hw
@@ -612,7 +656,7 @@ theorem tag_step (s s' : LSt) (x : LIn) (seen : List Nat) (h : TagInv s seen) (h
           · rw [upd_other _ _ _ _ hi] at hw; exact h.owned i' w hw
         · exact h.owned i' w hw
       · split at hs
-        · cases hs; exact ⟨h.owned, h.opened⟩
+        · cases hs; exact ⟨h.owned, h.opened, h.last⟩
         · cases hs
     | call i tag =>
       simp only [LSt.step, innerCall] at hs
@@ -621,17 +665,22 @@ theorem tag_step (s s' : LSt) (x : LIn) (seen : List Nat) (h : TagInv s seen) (h
         split at hs
         · rename_i hg
           cases hs
-          refine ⟨⟨h.owned, by intro o' t' hh; simp at hh⟩, ?_⟩
-          intro t' ht'
-          simp [callTags] at ht'; subst ht'
-          rw [← hg.2]; exact h.opened o t hop
+          have htag : tag ∈ seen := by rw [← hg.2]; exact h.opened o t hop
+          refine ⟨⟨h.owned, by intro o' t' hh; simp at hh, ?_⟩, ?_⟩
+          · intro o' t' hh
+            simp only [Option.some.injEq, Prod.mk.injEq] at hh
+            obtain ⟨_, rfl⟩ := hh
+            exact htag
+          · intro t' ht'
+            simp [callTags] at ht'; subst ht'
+            exact htag
         · cases hs
       · split at hs
         · rename_i ow how
           split at hs
           · rename_i hg
             cases hs
-            refine ⟨⟨?_, h.opened⟩, ?_⟩
+            refine ⟨⟨?_, h.opened, h.last⟩, ?_⟩
             · intro i' w hw
               simp only at hw
               by_cases hi : i' = i
